@@ -156,6 +156,18 @@ def gen45(rng):
     return mb(f)
 
 
+def gen53(rng):
+    """BDS 5,3 air-referenced state vector: heading (status 1, sign 2, 10 bits), IAS (13, 10 bits <= 500 kt), Mach (24, 9 bits of
+    0.008 <= 1), TAS (34, 12 bits of 0.5 kt <= 500 kt), vertical rate (47, sign 48, 8 bits of 64 ft/min, <= 8000)"""
+    f = []
+    if rng.random() < 0.8:
+        f += [(1, 1, 1), (2, 1, rng.randrange(2)), (3, 10, rng.getrandbits(10))]
+    f += sfield(rng, 13, 14, 23, 0, 500) + sfield(rng, 24, 25, 33, 0, 125) + sfield(rng, 34, 35, 46, 0, 1000)
+    if rng.random() < 0.8:
+        f += [(47, 1, 1), (48, 1, rng.randrange(2)), (49, 8, rng.choice([rng.randrange(0, 126), rng.randrange(131, 256)]))]
+    return mb(f)
+
+
 GENS = {"BDS10": gen10, "BDS17": gen17, "BDS20": gen20, "BDS30": gen30, "BDS40": gen40, "BDS44": gen44, "BDS45": gen45,
         "BDS50": gen50, "BDS60": gen60}
 MRAR_ONLY = ("BDS44", "BDS45")
@@ -255,7 +267,7 @@ def neighbourhood(rng, ctx):
     """every single-bit neighbour of valid (and of sparse, partly-valid) payloads of each register, and every value of every
     8..12-bit window ending at each field boundary: model and real code must agree on isXX / infer everywhere, so a rule whose
     bit range or threshold is off by one is exposed whichever way it moved"""
-    for reg, g in list(GENS.items()) + [("BDS53", None)]:
+    for reg, g in list(GENS.items()) + [("BDS53", gen53)]:
         op, path = ISFN[reg]
         for _ in range(ctx.n(6, 40)):
             if g is None:
